@@ -28,7 +28,7 @@ import (
 	"time"
 )
 
-const verifDir = "/verif"
+var verifDir = "/verif"
 
 var repoDir = "/repo"
 
@@ -122,6 +122,7 @@ func init() {
 	for _, id := range []string{"C01", "C02", "C03", "C05"} {
 		addSpec(&propSpec{ID: id, Level: "exploration", QuickRuns: 1600, ThorRuns: 40000, QuickSecs: 75, ThorSecs: 900})
 	}
+	addSpec(&propSpec{ID: "C16", Level: "exploration", Race: true, QuickRuns: 480, ThorRuns: 12000, QuickSecs: 90, ThorSecs: 1200})
 	addSpec(&propSpec{ID: "C15", Level: "fault_enumeration", QuickRuns: 48, ThorRuns: 4000, QuickSecs: 75, ThorSecs: 900,
 		Assume: []string{"SQLite's own atomic commit is trusted: torn or lost page writes below SQLite are not simulated (the files live on the real file system / tmpfs)",
 			"a crash is modelled as: no driver call after the crash point reaches the database, open connections are closed without commit or rollback, both files are reopened"}})
@@ -134,6 +135,13 @@ func main() {
 	}
 	if r := os.Getenv("VF_REPO"); r != "" {
 		repoDir = r
+	}
+	// the framework directory is the parent of the directory holding this binary
+	// (so that a snapshot of /verif uses its own harness, fixtures and findings)
+	if exe, err := os.Executable(); err == nil {
+		if d := filepath.Dir(filepath.Dir(exe)); fileExists(filepath.Join(d, "harness", "keymasterd")) {
+			verifDir = d
+		}
 	}
 	cmd := os.Args[1]
 	fs := flag.NewFlagSet("vfcheck", flag.ExitOnError)
@@ -156,6 +164,11 @@ func main() {
 	}
 	d := &driver{tier: *tier, seed: seed, runs: *runs, procs: *procs, keep: *keep, noEvidence: *noEvidence}
 	os.Exit(d.run(cmd, *replay))
+}
+
+func fileExists(p string) bool {
+	_, err := os.Stat(p)
+	return err == nil
 }
 
 func envOr(k, d string) string {
@@ -289,7 +302,7 @@ func (d *driver) runProc(bin string, j *job, idx int, timeout time.Duration, rac
 		return readResults(j.Out), fmt.Sprintf("watchdog: process %d exceeded %v\n%s", idx, timeout, tail(out.String(), 30))
 	}
 	res := readResults(j.Out)
-	if werr != nil && !(race && strings.Contains(werr.Error(), "exit status 66")) {
+	if werr != nil && !(race && (strings.Contains(werr.Error(), "exit status 66") || strings.Contains(out.String(), "race detected during execution of test"))) {
 		// the test binary failed outside a run (a crash of the process)
 		return res, fmt.Sprintf("process %d: %v\n%s", idx, werr, tail(out.String(), 40))
 	}
